@@ -34,8 +34,8 @@ class Design(object):
 
     def suspicious_starts(self):
         """Retained vertices from which trouble is one step away, if the graph has any: vertices with an arc into a
-        vertex without out-arcs (a dangling arc), and vertices whose only arc leads to a vertex with a single arc (a
-        possible information-free chain). Used to place writes where a wrongly trimmed graph would show."""
+        vertex without out-arcs (a
+        dangling arc). Used to place writes where a wrongly trimmed graph would show."""
         live = set(self.live)
         out = []
         for v in self.live:
@@ -476,6 +476,10 @@ def oracle_c06(op, design, out, ctx):
         if M.carried_bits(wk.degrees) > op["bit_length"]:
             st.vacuous += 1
             st.inc("probes", "c06:fast-outside-precondition")
+            if M.carried_bits(wk.degrees) == op["bit_length"] + 1 and wk.is_walk:
+                # the canonical strand of an odd-length message that ends on a 4-way vertex: outside C06 as worded
+                # ("no more bits than requested"), so no verdict - but what happened is recorded
+                st.inc("probes", "c06:fast-odd-tail-" + (out.kind if out.kind != "raised" else str(out.exc_type)))
             return
     cok = check_ok(read, check)
     expect_accept = wk.is_walk and cok
@@ -517,7 +521,7 @@ def oracle_c06(op, design, out, ctx):
                             ("not a walk (first non-arc at %d, vertex out-degree %s)" % (wk.first_bad, wk.bad_degree)
                              if not wk.is_walk else "a walk but whose check does not match"),
                             mismatch=mismatch, cmode=cmode, **det)
-        if out.exc_type != "ValueError":
+        if not isinstance(out.exc, ValueError):      # subclasses of ValueError are ValueErrors
             return ctx.fail("valueerror-only", "decode raised %s (%s), not ValueError" % (out.exc_type, out.exc_msg),
                             exc=out.exc_type, mismatch=mismatch, cmode=cmode, empty=len(read) == 0, **det)
     pos = "none" if wk.is_walk else F.classify_position(wk.first_bad, max(len(read), 1), design.k)
@@ -545,13 +549,21 @@ def read_repair(op, world, design, ctx):
     return rec
 
 
-def _repair_shape(value):
-    """None if well-formed (list of str, (int, bool, int, int)); else a description."""
+def _repair_shape(value, strict=True):
+    """None if well-formed; else a description. strict (C10: "a well-formed (candidates, statistics) pair"): list of str
+    and (int, bool, int, int). Otherwise (C08, C09, whose statements only use the candidates and the detected count):
+    a pair of a list of str and a sequence that starts with the integral detected count."""
     if not isinstance(value, tuple) or len(value) != 2:
         return "result is not a pair"
     cands, info = value
     if not isinstance(cands, list) or not all(isinstance(c, str) for c in cands):
         return "candidates are not a list of str"
+    if not strict:
+        try:
+            ok = isinstance(info[0], numbers.Integral) and not isinstance(info[0], (bool, numpy.bool_)) and len(info) >= 3
+        except Exception:
+            ok = False
+        return None if ok else "statistics do not start with an integral detected count"
     if not isinstance(info, tuple) or len(info) != 4:
         return "statistics are not a 4-tuple"
 
@@ -576,6 +588,14 @@ def _first_bad_class(design, start, read):
     return wk, "interior"
 
 
+def _inf_heap_backstop(op, out, row_bound=None):
+    """With an infinite heap limit the candidate product is unbounded by design (exponential in the detections) while
+    graph look-ups stay linear: a back-edge trip with look-ups in bound is then no verdict (the generators only give
+    an infinite heap to one-error reads; a replayed or minimised trace may not)."""
+    return out.kind == "budget" and out.which == "back-edge" and op.get("heap") == "inf" and \
+        (row_bound is None or out.rows <= row_bound)
+
+
 def oracle_c10(op, design, out, ctx, row_bound):
     st, read, k = ctx.stats, op["read"], design.k
     if not M.is_acgt(read) or len(read) < k or not 0 <= op["start"] < 4 ** k:
@@ -588,6 +608,8 @@ def oracle_c10(op, design, out, ctx, row_bound):
     st.inc("probes", "c10:first-bad-" + where_bad)
     if where_bad == "0":
         st.inc("probes", "c10:first-nucleotide-not-an-arc")
+    if _inf_heap_backstop(op, out, row_bound):
+        return ctx.outside("inf-heap-backstop")
     if out.kind == "budget":
         return ctx.fail("terminates", "repair_dna did not return within its look-up budget (%s: rows=%d bound=%d, "
                         "back-edges=%d)" % (out.which, out.rows, row_bound, out.jumps), budget=out.which, **det)
@@ -608,6 +630,8 @@ def oracle_c09(op, design, out, ctx):
     st, read, k, check = ctx.stats, op["read"], design.k, op.get("check")
     if len(read) < k or not 0 <= op["start"] < 4 ** k:
         return ctx.outside("c09-read")
+    if _inf_heap_backstop(op, out):
+        return ctx.outside("inf-heap-backstop")
     wk = M.walk(design.rows, op["start"], read)
     det = {"k": k, "n": len(read), "walk": wk.is_walk, "has_indel": op.get("has_indel", False),
            "heap": op.get("heap", 1000), "check": "none" if check is None else "given",
@@ -619,7 +643,7 @@ def oracle_c09(op, design, out, ctx):
         if out.kind != "returned":
             return ctx.fail("clean-untouched", "repair of a clean walk did not return (%s %s)" %
                             (out.kind, out.exc_type or out.which), **det)
-        bad = _repair_shape(out.value)
+        bad = _repair_shape(out.value, strict=False)
         if bad:
             return ctx.fail("clean-untouched", bad, **det)
         cands, info = out.value
@@ -633,7 +657,7 @@ def oracle_c09(op, design, out, ctx):
         st.vacuous += 1
         st.inc("probes", "c09:not-returned-" + (out.exc_type or out.which or "?"))
         return
-    bad = _repair_shape(out.value)
+    bad = _repair_shape(out.value, strict=False)
     if bad:
         return ctx.fail("sorted-unique", bad, **det)
     cands, info = out.value
@@ -662,9 +686,11 @@ def oracle_c09(op, design, out, ctx):
 
 def oracle_c08(op, design, out, ctx):
     st, read, k = ctx.stats, op["read"], design.k
-    w, edits = op["origin"], op["edits"]
-    if not design.generated or op.get("origin") is None:
+    w, edits = op.get("origin"), op.get("edits") or []
+    if not design.generated or w is None:
         return ctx.outside("c08-design-not-generated")
+    if _inf_heap_backstop(op, out):
+        return ctx.outside("inf-heap-backstop")
     n = len(w)
     # preconditions of the property, re-established from the explicit op (so a minimised trace stays inside them)
     wk_w = M.walk(design.rows, op["start"], w)
@@ -675,7 +701,7 @@ def oracle_c08(op, design, out, ctx):
         st.inc("probes", "c08:outside-precondition")
         return
     subs_only = all(e[0] == "S" for e in edits)
-    has_indel = op.get("has_indel", True)
+    has_indel = op.get("has_indel", False)      # the same default the call itself is made with
     if not has_indel and not subs_only:
         return ctx.outside("c08-indel-off")
     check = op.get("check")
@@ -691,7 +717,7 @@ def oracle_c08(op, design, out, ctx):
     if out.kind != "returned":
         return ctx.fail("returns", "repair_dna did not return under C08's preconditions (%s %s: %s)" %
                         (out.kind, out.exc_type or out.which, out.exc_msg or ""), **det)
-    bad = _repair_shape(out.value)
+    bad = _repair_shape(out.value, strict=False)
     if bad:
         return ctx.fail("returns", bad, **det)
     cands, info = out.value
